@@ -93,6 +93,9 @@ func c05Relational(c *Ctx, arms map[int64]OpArm) {
 			continue
 		}
 		// the dispatcher passes (left value, right value) in order: checked by C07.order; here: inside the handler
+		if c.relationalViaKernel(rule, rs.symbol, rs.vec, h, ops) {
+			continue
+		}
 		// numeric branch: vector over Cmp
 		var got [3]bool
 		okVec := true
@@ -210,12 +213,70 @@ func c05Equality(c *Ctx, arms map[int64]OpArm) {
 		}
 		return out
 	}
+	// an arm that calls the equality function directly from the dispatcher (wrapper inlined):
+	// `return r.valueLikeEqualTo(v1, v2), nil` / `return !r.valueLikeEqualTo(v1, v2), nil`
+	analyseArm := func(arm OpArm) retFn {
+		h := arm.Handler
+		if h == nil || arm.Call == nil || arm.Fold == nil || h.Signature.Results().Len() != 1 || !isBoolType(h.Signature.Results().At(0).Type()) {
+			return analyse(h)
+		}
+		var out retFn
+		n := 0
+		for _, ret := range arm.Fold.Returns {
+			if len(ret.Results) == 0 {
+				continue
+			}
+			v := ret.Results[0]
+			if mi, ok := v.(*ssa.MakeInterface); ok {
+				v = mi.X
+			}
+			neg := false
+			if u, ok := v.(*ssa.UnOp); ok && u.Op == token.NOT {
+				neg = true
+				v = u.X
+			}
+			if v != ssa.Value(arm.Call) {
+				continue
+			}
+			n++
+			out.fn, out.negated, out.ok = h, neg, true
+		}
+		if n != 1 {
+			out.ok = false
+		}
+		// operands: the evaluated Left, then the evaluated Right
+		side := func(v ssa.Value) string {
+			for _, rt := range plainOrigins.Roots(v) {
+				if rt.Kind != "call" {
+					continue
+				}
+				if call, ok := rt.V.(*ssa.Call); ok {
+					for _, a := range call.Call.Args {
+						for _, r2 := range plainOrigins.Roots(a) {
+							if r2.Kind == "param" && len(r2.Path) == 1 && (r2.Path[0] == "Left" || r2.Path[0] == "Right") {
+								return r2.Path[0]
+							}
+						}
+					}
+				}
+			}
+			return ""
+		}
+		var vals []ssa.Value
+		for _, a := range arm.Call.Call.Args {
+			if a.Type().String() == "interface{}" || a.Type().String() == "any" {
+				vals = append(vals, a)
+			}
+		}
+		out.inOrder = len(vals) == 2 && side(vals[0]) == "Left" && side(vals[1]) == "Right"
+		return out
+	}
 	const rn = "C05.negation-pair"
 	for _, pr := range []struct {
 		name     string
 		pos, neg OpArm
 	}{{"==/!=", eq, ne}, {"===/!==", seq, sne}} {
-		a, b := analyse(pr.pos.Handler), analyse(pr.neg.Handler)
+		a, b := analyseArm(pr.pos), analyseArm(pr.neg)
 		if !a.ok || !b.ok {
 			c.R.Check(rn, pr.name, pr.pos.Pos, false, "the handlers of "+pr.name+" must each return (the negation of) one call of an equality function")
 			continue
@@ -226,7 +287,7 @@ func c05Equality(c *Ctx, arms map[int64]OpArm) {
 	c.R.Floor(rn, 2)
 
 	const re = "C05.equality-predicate"
-	loose, strict := analyse(eq.Handler).fn, analyse(seq.Handler).fn
+	loose, strict := analyseArm(eq).fn, analyseArm(seq).fn
 	for _, fe := range []struct {
 		name string
 		f    *ssa.Function
@@ -320,7 +381,7 @@ func c05Equality(c *Ctx, arms map[int64]OpArm) {
 			gate := false
 			instrs(f, func(bk *ssa.BasicBlock, i int, in ssa.Instruction) {
 				bo, ok := in.(*ssa.BinOp)
-				if !ok || bo.Op != token.EQL {
+				if !ok || (bo.Op != token.EQL && bo.Op != token.NEQ) {
 					return
 				}
 				x, okx := bo.X.(*ssa.Call)
@@ -434,4 +495,80 @@ func pinTypeOfEq(val bool) Pin {
 		}
 		return nil, false
 	}
+}
+
+// relationalViaKernel handles the form `return threeWay(left, right) OP k, nil` where threeWay is a module function
+// returning the three-way comparison (-1, 0, +1): (*Big).Cmp on numbers, strings.Compare on strings. It emits the same
+// three obligations as the direct form. Returns false when the handler does not have that form.
+func (c *Ctx) relationalViaKernel(rule, symbol string, vec [3]bool, h *ssa.Function, ops []*ssa.Parameter) bool {
+	var kcall *ssa.Call
+	n := 0
+	instrs(h, func(b *ssa.BasicBlock, i int, in ssa.Instruction) {
+		if call, ok := in.(*ssa.Call); ok {
+			if g := calleeOf(call); g != nil && c.inModule(g) && g.Signature.Results().Len() == 1 && isIntType(g.Signature.Results().At(0).Type()) {
+				kcall = call
+				n++
+			}
+		}
+	})
+	if n != 1 {
+		return false
+	}
+	g := calleeOf(kcall)
+	gops := operandParams(g)
+	if len(gops) != 2 {
+		return false
+	}
+	pos := c.P.Pos(h.Pos())
+	// operands handed over in order
+	var vals []ssa.Value
+	for _, a := range kcall.Call.Args {
+		if a.Type().String() == "interface{}" || a.Type().String() == "any" {
+			vals = append(vals, a)
+		}
+	}
+	inOrder := len(vals) == 2 && vals[0] == ssa.Value(ops[0]) && vals[1] == ssa.Value(ops[1])
+	// the predicate over the three-way result
+	var got [3]bool
+	okVec := true
+	for i, r3 := range []int64{-1, 0, 1} {
+		r := c.foldWith(h, 0, pinCallFn(g, cInt(r3), nil))
+		b, ok := boxedBoolResult(r, 0)
+		if !ok {
+			okVec = false
+		}
+		got[i] = b
+	}
+	if !okVec {
+		c.R.Undecided(rule, "numeric-vector:"+symbol, pos, "the handler does not fold to a boolean over the three-way comparison's results")
+	} else {
+		c.R.Check(rule, "numeric-vector:"+symbol, pos, got == vec && inOrder, fmt.Sprintf("`a %s b` yields (%s,%s,%s) for a three-way comparison of (-1,0,+1), operands in order=%v; it must be (%s,%s,%s)", symbol, tf(got[0]), tf(got[1]), tf(got[2]), inOrder, tf(vec[0]), tf(vec[1]), tf(vec[2])))
+	}
+	// the kernel: numbers by (*Big).Cmp(left, right), strings by strings.Compare(left, right), returned as they are
+	kernelReturns := func(dyn, callee string) (bool, string) {
+		r := c.foldWith(g, 0, pinTypeCase(gops[0], dyn))
+		if len(r.Returns) == 0 {
+			return false, "no return"
+		}
+		for _, ret := range r.Returns {
+			call, ok := ret.Results[0].(*ssa.Call)
+			if !ok {
+				return false, "returns " + describeValue(ret.Results[0])
+			}
+			cal := calleeOf(call)
+			if cal == nil || cal.String() != callee {
+				return false, "returns the result of " + describeValue(call)
+			}
+			args := call.Call.Args
+			if len(args) != 2 || !c.coercedFrom(args[0], gops[0]) || !c.coercedFrom(args[1], gops[1]) {
+				return false, "operands not in (left, right) order"
+			}
+		}
+		return true, ""
+	}
+	okN, whyN := kernelReturns("*decimal.Big", "(*github.com/ericlagergren/decimal.Big).Cmp")
+	c.R.Check(rule, "numeric-compare:"+symbol, c.P.Pos(g.Pos()), okN, "numbers must be compared by value with (*Big).Cmp(left, right): "+whyN)
+	okS, whyS := kernelReturns("string", "strings.Compare")
+	c.R.Check(rule, "string-operator:"+symbol, c.P.Pos(g.Pos()), okS, "strings must compare byte-wise (strings.Compare(left, right) or Go's `"+symbol+"`): "+whyS)
+	return true
 }
